@@ -104,6 +104,9 @@ pub mod symbol;
 pub mod value;
 pub mod vm;
 
+#[cfg(boa_verif)]
+pub mod verif;
+
 mod host_defined;
 mod sys;
 
